@@ -25,7 +25,9 @@ IsFile(r) == r.backing \in {"stream", "interfile", "hdrstream"}
 LayoutOf(r) == IF r.backing = "memory" THEN StdLayout(GeoOf(r)) ELSE [byView |-> r.byView, seq |-> r.seq]
 \* Interfile headers cannot describe TOF data (data of a TOF-capable acquisition, whatever the TOF mashing) in
 \* Segment_AxialPos_View_TangPos order: announced error() - allowed there, nowhere else
-HeaderSupports(r) == ~(~r.byView /\ r.tofReady)
+TofReadyOf(r) == IF Has(r, "tofReady") THEN r.tofReady ELSE r.maxTof > r.minTof      \* (recordings older than the field)
+TimingOrderOf(r) == IF Has(r, "timingOrder") THEN r.timingOrder ELSE FALSE
+HeaderSupports(r) == ~(~r.byView /\ TofReadyOf(r))
 
 Zeros(n) == [i \in 1..n |-> 0]
 
@@ -184,9 +186,9 @@ Explains(r) ==
 \*   (no "TOF mashing factor": the geometry comes back as non-TOF) and, when a Timing_... storage order was asked for,
 \*   writes a 4-dimensional header with a 5th axis that cannot be read back.  Everything that can still be compared
 \*   (exam information, layout, values, data file) must be right.
-Tof1 == c.tofReady /\ NK(g) = 1
+Tof1 == TofReadyOf(c) /\ NK(g) = 1
 Tof1Rest(r) ==
-  \/ r.err /\ c.timingOrder
+  \/ r.err /\ TimingOrderOf(c)
   \/ /\ ~r.err /\ ExamCoreEq(r.exam0, r.exam)
      /\ (r.e = "Reopen" => LayoutEq(r))
      /\ IF r.verr THEN r.e = "Reopen" /\ Len(r.file) < c.n ELSE ReadOk(store, LAMBDA b : TRUE, LAMBDA b : stdT[b] + 1, r.vals, c.n)
